@@ -386,6 +386,24 @@ def case_quad1d(col, p):
                 if not np.allclose(np.asarray(got.data), ex, rtol=1e-9, atol=0):
                     col.violation('C17:Cache1D:integrate_point_pos:cached_gamma', dict(p, ppos=ppos, gammapos=gpos, theta=theta),
                                   {'got': np.asarray(got.data), 'exact': ex})
+    # two and three point masses (Npos), every ordering of the cached positive gammas, unequal proportions
+    if len(additional) >= 2:
+        for Npos in (2, 3):
+            for gs in itertools.product(additional, repeat=Npos):
+                for pps in ((0.1, 0.3, 0.2)[:Npos], (0.5, 0.0, 0.25)[:Npos]):
+                    flat = []
+                    for pp_, g_ in zip(pps, gs):
+                        flat += [pp_, g_]
+                    for theta in (0.5, 3.0):
+                        got = cache.integrate_point_pos(params + flat, None, pdf, theta, None, Npos=Npos)
+                        col.tick(transitions=1)
+                        n += 1
+                        ex = (1 - sum(pps)) * oracle_1d(gam, spectra, neu, pdf, params, theta, True)
+                        for pp_, g_ in zip(pps, gs):
+                            ex = ex + pp_ * theta * np.asarray(demo((2.0, g_), NS1, None).data)
+                        if not np.allclose(np.asarray(got.data), ex, rtol=1e-9, atol=0):
+                            col.violation('C17:Cache1D:integrate_point_pos:several_point_masses', dict(p, Npos=Npos, ppos=pps, gammapos=gs, theta=theta),
+                                          {'got': np.asarray(got.data), 'exact': ex})
     gnew = 7.5
     posn = np.asarray(demo((2.0, gnew), NS1, None).data)
     for theta in (0.5, 3.0, 1.0):
@@ -442,6 +460,9 @@ def pdf_lattice_2d():
     L.append(('biv_ind_gamma4', PDFs.biv_ind_gamma, [0.4, 2.0, 5.0, 1.5]))
     L.append(('biv_ind_gamma3', PDFs.biv_ind_gamma, [2.0, 1.0, 0.0]))
     L.append(('biv_ind_gamma5', PDFs.biv_ind_gamma, [0.3, 1.2, 4.0, 2.0, 0.0]))
+    # much of the mass below the smallest cached |gamma| in both populations (effectively neutral corner and edges carry real weight)
+    L.append(('biv_lognormal3_near_neutral', PDFs.biv_lognormal, [-3.0, 1.0, 0.3]))
+    L.append(('biv_ind_gamma4_near_neutral', PDFs.biv_ind_gamma, [0.2, 0.5, 0.3, 0.4]))
     return L
 
 
